@@ -127,7 +127,9 @@ CLAIMED = {
     "C11": ("model_checking",
             "TLA+ spec of the upload (WriteFile.tla: path/id table, Slice; ZvtSequence step function with data requests) model-checked "
             "(MC_Upload, MC_Sequence for WriteFile); real uploads from seeded random directories on disk recorded and validated by TLC "
-            "(TraceUpload: announcement and every data block decoded with the reference codec)",
+            "(TraceUpload: announcement and every data block decoded with the reference codec); the shipped update tool (zvt_cli feig_update) "
+            "specified as FeigUpdate!RunTool, model-checked (MC_FeigUpdate) and run as a process against a scripted terminal over loopback TCP, "
+            "its writes taken at the system call and judged by TLC (TraceTool)",
             "The exchange is explored exhaustively to the script depth bound; the data path is bound by trace validation over random "
             "directories, block sizes and request scripts including every refusal class of the property.",
             "DESIGN.md 8 (C11)", TB),
